@@ -207,6 +207,10 @@ def dag_spec(rng, tps, directed=False):
             hopeless = k in (1, 2) and rng.random() < 0.6
             ops.append({"parents": par, "ticks": rng.randint(1, 2 * tps), "mem": None if hopeless else rng.choice([1, 4, 16]),
                         "read": rng.choice([160, 200]) if hopeless else 0})
+        if shape[3] == [1, 2] and (len(pipes) + tps) % 2 == 0:
+            # the join's last-listed parent is done long before the first-listed one
+            ops[1].update({"ticks": 2 * tps + 3, "mem": 1, "read": 0})
+            ops[2].update({"ticks": 1, "mem": 1, "read": 0})
         pipes.append({"prio": rng.choice([1, 2, 3]), "ops": ops})
     arrivals = [[] for _ in range(3 * tps)]
     for k in range(len(pipes)):
@@ -214,7 +218,7 @@ def dag_spec(rng, tps, directed=False):
     return {"pipes": pipes, "arrivals": arrivals, "tps": tps}
 
 
-def one_run(ctx, drv, rng):
+def one_run(ctx, drv, rng, force_directed=False):
     global REPLAY_PLAN
     from eudoxia.simulator import run_simulator
     from eudoxia.executor.executor import Executor
@@ -240,7 +244,16 @@ def one_run(ctx, drv, rng):
     twins = (not heavy) and rng.random() < 0.3
     dag = (not heavy) and (not twins) and rng.random() < 0.5
     directed = dag and rng.random() < 0.4
+    if force_directed:
+        heavy, pack, chorus, twins, dag, directed, multi = False, False, None, False, True, True, False
     spec = dag_spec(rng, tps, directed) if dag else None
+    if force_directed == "join":
+        # a join whose last-listed parent is done long before its first-listed one, the two branches in separate containers: for many calls the join's
+        # `parents_complete` must stay false
+        directed = False
+        spec = {"pipes": [{"prio": rng.choice([1, 2, 3]), "ops": [{"parents": [], "ticks": 1, "mem": 1, "read": 0}, {"parents": [0], "ticks": 2 * tps + 3, "mem": 1, "read": 0},
+                                                                  {"parents": [0], "ticks": 1, "mem": 1, "read": 0}, {"parents": [1, 2], "ticks": 1, "mem": 1, "read": 0}]}],
+                "arrivals": [[0]], "tps": tps}
     if dag:
         poll = rng.choice([F(1, tps), F(1, tps), F(2, tps)])
     if directed:
@@ -382,6 +395,9 @@ def run(ctx):
     rng = random.Random(ctx.seed)
     drv = Driver()
     try:
+        for k in range(2 if ctx.quick() else 8):
+            one_run(ctx, drv, random.Random(ctx.seed * 31 + k), force_directed=True)       # the alternating-siblings scenario, in every check
+            one_run(ctx, drv, random.Random(ctx.seed * 37 + k), force_directed="join")     # and the lop-sided join
         for _ in range(24 if ctx.quick() else 200):
             one_run(ctx, drv, rng)
     finally:
